@@ -371,6 +371,23 @@ def more_foveation(ctx):
                                   % (mode, equi, centre, float((out - ref).abs().max()) if out.shape == ref.shape else float('nan')), rec,
                                   {'fn': 'blur', 'what': 'moving_gaze', 'equi': equi, 'mode': mode})
                     break
+    # ---- frames on which some pixel's level of detail is EXACTLY a whole number (the boundary between two mip levels; a float coincidence of size, gaze and
+    # alpha that VGA-wide frames do produce): every pixel still belongs to exactly one pair of levels - a constant image stays constant, values stay in range
+    import odak.learn.perception.foveation as FVi
+    from odak.learn.perception.radially_varying_blur import RadiallyVaryingBlur as RVBi
+    for (size_i, alpha_i, centre_i, mode_i) in (((480, 640), 0.28, (0.3, 0.6), 'quadratic'), ((480, 640), 0.46, (0.75, 0.5), 'quadratic'), ((360, 640), 0.33, (0.0, 0.0), 'quadratic')):
+        lod_i = FVi.make_pooling_size_map_lod(list(centre_i), size_i, alpha_i, 0.2, 0.7, mode_i)
+        whole = (lod_i >= 1) & (lod_i == torch.round(lod_i))
+        ctx.case(('integer_lod', size_i, alpha_i), True)
+        ctx.count('blur/frames with a pixel at a whole-number level of detail' if bool(whole.any()) else 'blur/whole-number level not reproduced on this build')
+        const_i = torch.full((1, 3) + size_i, 0.7)
+        out_i = RVBi().blur(const_i, alpha_i, 0.2, 0.7, list(centre_i), mode_i, False)
+        if float((out_i - 0.7).abs().max()) > 1e-5:
+            yy, xx = divmod(int(torch.argmax((out_i[0, 0] - 0.7).abs())), size_i[1])
+            ctx.violation('RadiallyVaryingBlur.blur of a constant %dx%d image (alpha %g, gaze %s): pixel (%d, %d), whose level of detail is %r, comes back as %g instead of 0.7 '
+                          '(it belongs to no mip level)' % (size_i[0], size_i[1], alpha_i, centre_i, yy, xx, float(lod_i[yy, xx]), float(out_i[0, 0, yy, xx])),
+                          {'fn': 'blur', 'size': list(size_i), 'alpha': alpha_i, 'centre': list(centre_i), 'mode': mode_i, 'integer_lod': True},
+                          {'fn': 'blur', 'what': 'constant', 'integer_lod': True})
     # ---- ONE gaze list object that the caller updates in place between calls (an eye tracker writing into `gaze[0]`, `gaze[1]`): each blur is the blur a new
     # object gives for the current contents of the list
     from odak.learn.perception.radially_varying_blur import RadiallyVaryingBlur as RVBg
